@@ -136,6 +136,12 @@ def rsa_pool(ctx):
             keys.append(ser.load_ssh_private_key(f.read(), None))
         except Exception:
             pass
+    # keys found by search (tools: 276 generated keys): one CRT member (dp, dq, qi) is at least one octet shorter than its prime, so a
+    # fixed-width encoding of that member differs from the minimal-length one
+    fx = os.path.join(os.path.dirname(os.path.dirname(os.path.abspath(__file__))), "impl", "fixtures")
+    for name in ("rsa_short_dp.pem", "rsa_short_dq.pem", "rsa_short_qi.pem"):
+        with open(os.path.join(fx, name), "rb") as f:
+            keys.append(ser.load_pem_private_key(f.read(), None))
     sizes = [1024, 2048] if ctx.tier == "quick" else [1024, 1536, 2048, 2560, 3072, 3584, 4096]
     for s in sizes:
         keys.append(rsa.generate_private_key(65537, s))
